@@ -341,7 +341,7 @@ def random_table(r, nasty=0.0, ncols=None, tname=None):
     used = set()
     ncols = ncols or r.choice([1, 1, 2, 2, 3, 4, 6])
     tn = ident(tname) if tname else random_ident(r, nasty * 0.5, {"other"})
-    if tn["t"].lower().startswith("sqlite_") or tn["t"] == "":
+    if tn["t"].lower().startswith("sqlite_"):
         tn = ident("t1")
     t = {"name": tn,
          "g_name": random_gap(r, "after-table-name", "", nasty, required=False),
